@@ -76,6 +76,10 @@ def await_stmt(rng):
                               bin_("eq", ref("v"), pint(1))]))
 
 
+WAIT_HI = func("wait_hi", ["x"], [await_(ref("x"))], True)
+WAIT_RET = func("wait_ret", ["x", "y"], [while_(TRUE, [await_(ref("x")), if_(ref("y"), [ret_()])])], True)
+
+
 def coro_block(rng, m, uses, depth, in_loop, budget):
     """list of statements; budget bounds the total number of items"""
     out = []
@@ -90,7 +94,11 @@ def coro_block(rng, m, uses, depth, in_loop, budget):
         if c < 0.30:
             out += atom(rng, m, uses)
         elif c < 0.55:
-            out.append(await_stmt(rng))
+            aw = await_stmt(rng)
+            # some awaits of a plain signal go through a sub-coroutine (decided by position, not by the random stream)
+            if aw["c"]["k"] == "ref" and (budget[0] + len(out)) % 3 == 0:
+                aw = ucall(WAIT_HI, [aw["c"]])
+            out.append(aw)
         elif c < 0.72 and depth > 0:
             th = coro_block(rng, m, uses, depth - 1, in_loop, budget)
             el = coro_block(rng, m, uses, depth - 1, in_loop, budget) if rng.random() < 0.5 else []
@@ -132,7 +140,7 @@ def _has_exit(ss):
 
 def _has_suspend(ss):
     for s in ss:
-        if s["k"] in ("await", "while"):
+        if s["k"] in ("await", "while", "ucall"):
             return True
         if s["k"] == "if" and (_has_suspend(s["th"]) or _has_suspend(s["el"])):
             return True
@@ -174,6 +182,8 @@ def coro_entity(name, body, uses, rst=None, family="coro", extra=None, opts=None
         body = body + pre
         ctxs.append(xc)
     e = entity(name, ports, objs, [seq_ctx("proc", body, reset=rst, coroutine=True, **(opts or {}))] + ctxs)
+    if '"wait_hi"' in json.dumps(body):
+        e["funcs"] = [WAIT_HI]
     e["family"] = family
     return e
 
